@@ -107,6 +107,29 @@ def run_C16(ctx):
             texts[(gname, 'ts')] = t
             tasks.append((gname, 'ts', [yaccgo, 'generate', 'typescript', y, os.path.join(work, 'g%d.ts' % gi)]))
 
+        # declaration mixes (explicit numbers, re-declarations, tokens known only from precedence lines or rules, -1 alias)
+        import frontprops
+        mixes = frontprops.c11_specs(ctx)[:(30 if ctx.quick else 300)]
+        base = len(gs)
+        for mi, (mname, sp) in enumerate(mixes):
+            gi = base + mi
+            gs.append((mname, None))
+            for (vn, flags, obj) in genrun.GO_VARIANTS:
+                pkg = 'p%d%s' % (gi, vn)
+                os.makedirs(os.path.join(work, pkg))
+                sp2 = dict(sp, prologue='\npackage %s\nimport "fmt"\n' % pkg)
+                t = front.render(sp2, random.Random(ctx.seed * 13 + mi), 'plain')
+                y = os.path.join(work, pkg, 'g.y')
+                open(y, 'w').write(t)
+                texts[(mname, vn)] = t
+                tasks.append((mname, vn, [yaccgo, 'generate', 'go'] + flags + [y, os.path.join(work, pkg, 'p.go')]))
+            sp3 = dict(sp, prologue='\n"use strict";\n', union='\n v0 :number = 0;\n v1 :number = 0;\n v2 :number = 0;\n', epilogue=TS_EPI)
+            t = front.render(sp3, random.Random(ctx.seed * 13 + mi), 'plain')
+            y = os.path.join(work, 'g%d.y' % gi)
+            open(y, 'w').write(t)
+            texts[(mname, 'ts')] = t
+            tasks.append((mname, 'ts', [yaccgo, 'generate', 'typescript', y, os.path.join(work, 'g%d.ts' % gi)]))
+
         def gen1(t):
             gname, vn, cmd = t
             try:
